@@ -460,12 +460,98 @@ theorem deactLoop_tri (W0 A0 : Prop) (pname : String) (l0 : List Rev) (cur : Str
         · subst e2; exact absurd st ha
         · exact ⟨t', ht', e, st⟩
 
+/-! ### the copied spec leaves: lookup in a JSON merge patch of a leaf map -/
+
+/-- every leaf of `d` is present in `e` with the same value -/
+def LeafCovers (d e : Labels) : Prop := ∀ kv ∈ d, getL kv.1 e = some kv.2
+
+/-- a leaf list has each path once (what a serialised JSON object is) -/
+def KeysNodup (l : Labels) : Prop := (l.map (·.1)).Nodup
+
+instance (l : Labels) : Decidable (KeysNodup l) := by unfold KeysNodup; infer_instance
+
+theorem getL_cons (k : String) (a : String × String) (l : Labels) :
+    getL k (a :: l) = if a.1 = k then some a.2 else getL k l := by
+  unfold getL
+  by_cases h : a.1 = k <;> simp [List.find?_cons, h]
+
+theorem getL_setLabel_self (k v : String) (l : Labels) : getL k (setLabel k v l) = some v := by
+  induction l with
+  | nil => simp [setLabel, getL_cons]
+  | cons a rest ih =>
+    obtain ⟨k', v'⟩ := a
+    simp only [setLabel]
+    by_cases h1 : k = k'
+    · simp [h1, getL_cons]
+    · rw [if_neg h1]
+      by_cases h2 : k < k'
+      · simp [h2, getL_cons]
+      · rw [if_neg h2, getL_cons, if_neg (fun e => h1 e.symm)]
+        exact ih
+
+theorem getL_setLabel_ne {k k' : String} (v : String) (l : Labels) (h : k' ≠ k) :
+    getL k' (setLabel k v l) = getL k' l := by
+  induction l with
+  | nil => simp [setLabel, getL_cons, getL, Ne.symm h]
+  | cons a rest ih =>
+    obtain ⟨k2, v2⟩ := a
+    simp only [setLabel]
+    by_cases h1 : k = k2
+    · subst h1
+      simp [getL_cons, Ne.symm h]
+    · rw [if_neg h1]
+      by_cases h2 : k < k2
+      · rw [if_pos h2, getL_cons, if_neg (Ne.symm h)]
+      · rw [if_neg h2, getL_cons, getL_cons, ih]
+
+theorem getL_merge_notin (k : String) (d st : Labels) (h : k ∉ d.map (·.1)) :
+    getL k (mergeLabels st d) = getL k st := by
+  unfold mergeLabels
+  induction d generalizing st with
+  | nil => rfl
+  | cons a rest ih =>
+    simp only [List.map_cons, List.mem_cons, not_or] at h
+    simp only [List.foldl_cons]
+    rw [ih _ h.2, getL_setLabel_ne _ _ h.1]
+
+/-- a JSON merge patch stores every leaf the desired object serialises … -/
+theorem getL_merge_mem (d st : Labels) (hn : KeysNodup d) (kv : String × String) (h : kv ∈ d) :
+    getL kv.1 (mergeLabels st d) = some kv.2 := by
+  induction d generalizing st with
+  | nil => cases h
+  | cons a rest ih =>
+    have hn' : a.1 ∉ rest.map (·.1) ∧ KeysNodup rest := by
+      simpa [KeysNodup, List.nodup_cons] using hn
+    show getL kv.1 (mergeLabels (setLabel a.1 a.2 st) rest) = some kv.2
+    rcases List.mem_cons.mp h with e | h'
+    · subst e
+      rw [getL_merge_notin _ _ _ hn'.1, getL_setLabel_self]
+    · exact ih _ hn'.2 h'
+
+theorem LeafCovers_merge (d st : Labels) (hn : KeysNodup d) : LeafCovers d (mergeLabels st d) :=
+  fun kv h => getL_merge_mem d st hn kv h
+
+theorem LeafCovers_self (d : Labels) (hn : KeysNodup d) : LeafCovers d d := by
+  induction d with
+  | nil => intro kv h; cases h
+  | cons a rest ih =>
+    have hn' : a.1 ∉ rest.map (·.1) ∧ KeysNodup rest := by
+      simpa [KeysNodup, List.nodup_cons] using hn
+    intro kv h
+    rcases List.mem_cons.mp h with e | h'
+    · subst e; simp [getL_cons]
+    · have hne : a.1 ≠ kv.1 := fun e => hn'.1 (e ▸ List.mem_map_of_mem h')
+      rw [getL_cons, if_neg hne]
+      exact ih hn'.2 kv h'
+
 /-- what a completed reconcile guarantees about the store -/
 def Post (pname : String) (p : Pkg) (cur : String) (dn B : Int) (s : Store) : Prop :=
   ∃ rev ∈ s.revs, rev.name = cur ∧ rev.parent = some pname ∧
     (∀ x ∈ s.revs, labelled pname x = true → x.number ≤ rev.number) ∧
     (p.spec.policy ≠ .manual → rev.state = .active) ∧ rev.image = p.spec.source ∧
-    rev.number = dn ∧ NumLeO pname cur B s.revs
+    rev.number = dn ∧ NumLeO pname cur B s.revs ∧
+    (KeysNodup (copiedExtra p.spec) → LeafCovers (copiedExtra p.spec) rev.extra) ∧
+    rev.labels = p.spec.labels
 
 def Qmain (pname : String) (p : Pkg) (cur : String) (dn B : Int) (s : Store) (r : Res) : Prop :=
   ∀ c a, r = .done c a → c = cur ∧ Post pname p cur dn B s
@@ -554,10 +640,12 @@ theorem applyCurrent_tri (W0 A0 : Prop) (l0 : List Rev) (cur : String) (vic : Op
   have hd3 : maxRevision listed ≤ d.number := hd ▸ desiredCurrent_number p cur listed
   have hd4 : p.spec.policy ≠ .manual → d.state = .active := fun hh => hd ▸ desiredCurrent_state p cur listed hh
   have hd5 : d.image = p.spec.source := hd ▸ desiredCurrent_image p cur listed
+  have hd6 : d.extra = copiedExtra p.spec := hd ▸ rfl
   apply Tri.bind (Q' := fun s' out =>
     (∃ pr, out = .ok pr ∧ I0 W0 A0 p.name l0 cur s' ∧ NoOther p.name cur s'.revs ∧ pr ∈ s'.revs ∧ pr.name = cur ∧
       pr.parent = some p.name ∧ pr.number = d.number ∧ pr.state = d.state ∧ pr.image = d.image ∧
-      NumLe p.name d.number s'.revs ∧ NumLeO p.name cur B s'.revs) ∨ out = .conflict ∨ out = .err)
+      NumLe p.name d.number s'.revs ∧ NumLeO p.name cur B s'.revs ∧
+      (KeysNodup d.extra → LeafCovers d.extra pr.extra)) ∨ out = .conflict ∨ out = .err)
   · apply applyRev_tri
     · exact Rdel_get _ _
     · exact Rdel_patch _ _
@@ -567,7 +655,8 @@ theorem applyCurrent_tri (W0 A0 : Prop) (l0 : List Rev) (cur : String) (vic : Op
       obtain ⟨hcm, hcn⟩ := findRev_some hf
       have hmn : (mergeRev c d).name = cur := by show c.name = cur; rw [hcn, hd1]
       have hI' := I0.setRev_cur (m := mergeRev c d) hI hmn hNo
-      refine ⟨hI', .inl ⟨_, rfl, hI', NoOther_setRev hmn hNo, mem_setRev_self hcm rfl, hmn, ?_, rfl, rfl, rfl, ?_, ?_⟩⟩
+      refine ⟨hI', .inl ⟨_, rfl, hI', NoOther_setRev hmn hNo, mem_setRev_self hcm rfl, hmn, ?_, rfl, rfl, rfl, ?_, ?_,
+        fun hk => LeafCovers_merge d.extra c.extra hk⟩⟩
       · simp [mergeRev, hd2]
       · intro x hx lx
         rcases mem_setRev hx with ⟨e, _⟩ | ⟨hx', _⟩
@@ -581,7 +670,8 @@ theorem applyCurrent_tri (W0 A0 : Prop) (l0 : List Rev) (cur : String) (vic : Op
       have hmn : ({ d with deleting := false } : Rev).name = cur := hd1
       have hfresh : ∀ x ∈ s.revs, x.name ≠ ({ d with deleting := false } : Rev).name := findRev_none hf
       have hI' := I0.insert_cur (m := { d with deleting := false }) hI hmn hNo hfresh
-      refine ⟨hI', .inl ⟨_, rfl, hI', NoOther_insertRev hmn hNo, mem_insertRev.mpr (.inl rfl), hmn, hd2, rfl, rfl, rfl, ?_, ?_⟩⟩
+      refine ⟨hI', .inl ⟨_, rfl, hI', NoOther_insertRev hmn hNo, mem_insertRev.mpr (.inl rfl), hmn, hd2, rfl, rfl, rfl, ?_, ?_,
+        fun hk => LeafCovers_self d.extra hk⟩⟩
       · intro x hx lx
         rcases mem_insertRev.mp hx with e | hx'
         · subst e; exact Int.le_refl _
@@ -593,20 +683,23 @@ theorem applyCurrent_tri (W0 A0 : Prop) (l0 : List Rev) (cur : String) (vic : Op
     · exact .inr (.inr rfl)
     · exact .inr (.inl rfl)
   · intro s' out hq
-    rcases hq with ⟨pr, e, hI', hNo', hmem, hn, hpar, hnum, hst, himg, hN', hO'⟩ | e | e
+    rcases hq with ⟨pr, e, hI', hNo', hmem, hn, hpar, hnum, hst, himg, hN', hO', hcov⟩ | e | e
     · subst e
       have hPost : ∀ (l : List Rev) (m : Rev), m ∈ l → m.name = cur → m.parent = some p.name → m.number = d.number →
           m.state = d.state → m.image = d.image → NumLe p.name d.number l → NumLeO p.name cur B l →
+          m.extra = pr.extra → m.labels = p.spec.labels →
           ∀ s'' : Store, s''.revs = l → Post p.name p cur d.number B s'' := by
-        intro l m hm1 hm2 hm3 hm4 hm5 hm6 hm7 hm8 s'' e
-        refine ⟨m, e ▸ hm1, hm2, hm3, ?_, ?_, ?_, hm4, e ▸ hm8⟩
+        intro l m hm1 hm2 hm3 hm4 hm5 hm6 hm7 hm8 hm9 hm10 s'' e
+        refine ⟨m, e ▸ hm1, hm2, hm3, ?_, ?_, ?_, hm4, e ▸ hm8, ?_, hm10⟩
+        rotate_left 3
+        · intro hk; rw [hm9]; exact hd6 ▸ hcov (hd6 ▸ hk)
         · intro x hx lx; rw [hm4]; exact hm7 x (e ▸ hx) lx
         · intro hh; rw [hm5]; exact hd4 hh
         · rw [hm6]; exact hd5
       show Tri _ _ _ (if pr.labels = p.spec.labels then _ else _) s'
       by_cases hl : pr.labels = p.spec.labels
       · rw [if_pos hl]
-        exact finishStatus_tri W0 A0 p.name l0 cur vic p _ _ s' hI' (hPost _ pr hmem hn hpar hnum hst himg hN' hO' s' rfl)
+        exact finishStatus_tri W0 A0 p.name l0 cur vic p _ _ s' hI' (hPost _ pr hmem hn hpar hnum hst himg hN' hO' rfl hl s' rfl)
       · rw [if_neg hl]
         obtain ⟨c', hf'⟩ := findRev_isSome_of_mem (n := pr.name) hmem rfl
         have hmn : ({ pr with labels := p.spec.labels, deleting := c'.deleting } : Rev).name = cur := hn
@@ -620,7 +713,7 @@ theorem applyCurrent_tri (W0 A0 : Prop) (l0 : List Rev) (cur : String) (vic : Op
         · rw [hex]
           apply finishStatus_tri W0 A0 p.name l0 cur vic p _ _ _ hI''
           apply hPost _ { pr with labels := p.spec.labels, deleting := c'.deleting }
-            (mem_setRev_self (findRev_some hf').1 (findRev_some hf').2) hn hpar hnum hst himg _ _ _ rfl
+            (mem_setRev_self (findRev_some hf').1 (findRev_some hf').2) hn hpar hnum hst himg _ _ rfl rfl _ rfl
           · intro x hx lx
             rcases mem_setRev hx with ⟨e, _⟩ | ⟨hx', _⟩
             · subst e; exact Int.le_of_eq hnum
